@@ -4,6 +4,7 @@ import (
 	"errors"
 	"sync"
 	"sync/atomic"
+	"time"
 
 	"github.com/feichai0017/NoKV/kv"
 	"github.com/feichai0017/NoKV/lsm/flush"
@@ -12,6 +13,9 @@ import (
 	"github.com/feichai0017/NoKV/vfs"
 	"github.com/feichai0017/NoKV/wal"
 )
+
+// flushRetryDelay is the pause before a failed memtable flush is attempted again.
+const flushRetryDelay = 50 * time.Millisecond
 
 // LSM _
 type LSM struct {
@@ -655,13 +659,26 @@ func (lsm *LSM) startFlushWorkers(n int) {
 					continue
 				}
 
-				func() {
+				stop := func() bool {
 					defer mt.DecrRef()
-					if err := lsm.levels.flush(mt); err != nil {
-						if updateErr := lsm.flushMgr.Update(task.ID, flush.StageRelease, nil, err); updateErr != nil {
-							_ = utils.Err(updateErr)
+					// Flushes must complete in rotation order: every flush advances the manifest
+					// log pointer, and recovery drops all WAL segments at or below it. A memtable
+					// whose flush failed is therefore retried before any younger one is flushed;
+					// when the LSM is closing the worker stops instead, leaving the segment for
+					// replay.
+					for {
+						err := lsm.levels.flush(mt)
+						if err == nil {
+							break
 						}
-						return
+						_ = utils.Err(err)
+						if lsm.closed.Load() {
+							if updateErr := lsm.flushMgr.Update(task.ID, flush.StageRelease, nil, err); updateErr != nil {
+								_ = utils.Err(updateErr)
+							}
+							return true
+						}
+						time.Sleep(flushRetryDelay)
 					}
 					if updateErr := lsm.flushMgr.Update(task.ID, flush.StageInstall, nil, nil); updateErr != nil {
 						_ = utils.Err(updateErr)
@@ -678,7 +695,11 @@ func (lsm *LSM) startFlushWorkers(n int) {
 					if updateErr := lsm.flushMgr.Update(task.ID, flush.StageRelease, nil, nil); updateErr != nil {
 						_ = utils.Err(updateErr)
 					}
+					return false
 				}()
+				if stop {
+					return
+				}
 			}
 		})
 	}
